@@ -1,5 +1,6 @@
 import TxV.Core.Families
 import TxV.Core.Example
+import TxV.Core.ExampleReject
 /-!
 # C11 — ill-formed designs are rejected, well-formed ones accepted
 
@@ -112,28 +113,22 @@ theorem c11_complete_partial (ord : Nat → Nat) (hwf : D.WF) (hb : Bounded D) (
 conflict, an `If/Else` with the same callee in both alternatives) is accepted and its computed
 conflict graph is the expected one; five one-defect variants are rejected -/
 example : accept Ex.D Ex.S.ord = true ∧
-    ((List.range 5).all fun a => (List.range 5).all fun b => cgrOf Ex.D a b == Ex.S.cgr a b) = true := by
-  decide
+    ((List.range 5).all fun a => (List.range 5).all fun b => cgrOf Ex.D a b == Ex.S.cgr a b) = true :=
+  ⟨Ex.accept', Ex.cgrEq⟩
 
 /-- double call: `T` calls exclusive `M` twice on the same path -/
-example : accept ⟨[⟨true, ⟨0, []⟩, false, false, false, [⟨1, ⟨0, [⟨0,0⟩]⟩, 0⟩, ⟨1, ⟨0, [⟨0,0⟩]⟩, 1⟩], []⟩,
-    ⟨false, ⟨0, []⟩, false, false, false, [], []⟩]⟩ (fun t => t) = false := by decide
+example : accept Rej.doubleCall (fun t => t) = false := Rej.doubleCall_rejected
 /-- self call: `M1 → M2 → M1` -/
-example : accept ⟨[⟨true, ⟨0, []⟩, false, false, false, [⟨1, ⟨0, [⟨0,0⟩]⟩, 0⟩], []⟩,
-    ⟨false, ⟨0, []⟩, false, false, false, [⟨2, ⟨0, [⟨0,1⟩]⟩, 1⟩], []⟩,
-    ⟨false, ⟨0, []⟩, false, false, false, [⟨1, ⟨0, [⟨0,2⟩]⟩, 2⟩], []⟩]⟩ (fun t => t) = false := by decide
+example : accept Rej.selfCall (fun t => t) = false := Rej.selfCall_rejected
 /-- cyclic priorities: `T0.add_conflict(T1, LEFT)`, `T1.add_conflict(T0, LEFT)`: both orders rejected -/
-example : let D : Design := ⟨[⟨true, ⟨0, []⟩, false, false, false, [], [⟨1, .left, true, false⟩]⟩,
-    ⟨true, ⟨0, []⟩, false, false, false, [], [⟨0, .left, true, false⟩]⟩]⟩
-    accept D (fun t => t) = false ∧ accept D (fun t => 1 - t) = false := by decide
+example : accept Rej.prioCycle (fun t => t) = false ∧ accept Rej.prioCycle (fun t => 1 - t) = false :=
+  Rej.prioCycle_rejected
 /-- single_caller method called from two transactions -/
-example : accept ⟨[⟨true, ⟨0, []⟩, false, false, false, [⟨2, ⟨0, [⟨0,0⟩]⟩, 0⟩], []⟩,
-    ⟨true, ⟨0, []⟩, false, false, false, [⟨2, ⟨0, [⟨0,1⟩]⟩, 1⟩], []⟩,
-    ⟨false, ⟨0, []⟩, true, true, false, [], []⟩]⟩ (fun t => t) = false := by decide
+example : accept Rej.singleCaller (fun t => t) = false := Rej.singleCaller_rejected
 /-- ready-dependent on a conflicting transaction: `T0.schedule_before(T1, ready_dependent)` and `T0.add_conflict(T1)` -/
-example : accept ⟨[⟨true, ⟨0, []⟩, false, false, false, [],
-      [⟨1, .left, false, true⟩, ⟨1, .undef, true, false⟩]⟩,
-    ⟨true, ⟨0, []⟩, false, false, false, [], []⟩]⟩ (fun t => t) = false := by decide
+example : accept Rej.readyDepConflict (fun t => t) = false := Rej.readyDepConflict_rejected
+/-- one transaction reaching both ends of an `add_conflict` on non-exclusive paths -/
+example : accept Rej.sameTransConflict (fun t => t) = false := Rej.sameTransConflict_rejected
 
 end TxV.Core
 
